@@ -786,6 +786,93 @@ func dispatch(e *env, c Case, a, b, cc string) string {
 		st.NextTimeout()
 		st.End()
 		return classify(true, err)
+	case "DKGFlood":
+		// a peer (the dealer of the single-dealer protocol, every peer in Joint-Feldman) sends a well-formed vector and then complaint
+		// answers / complaints naming EVERY index 0..n-1; then both timeouts and End.  Sizes 2, 3, 4.
+		for _, n := range []int{2, 3, 4} {
+			t := 1
+			me := n - 1
+			dealer := 0
+			if b == "dealer" {
+				me, dealer = 0, 0
+			}
+			var st crypto.DKGState
+			if a == "qual" {
+				st, _ = crypto.NewFeldmanVSSQual(n, t, me, dkgProc{}, dealer)
+			} else {
+				st, _ = crypto.NewJointFeldman(n, t, me, dkgProc{})
+			}
+			st.Start(make([]byte, 32))
+			// a real vector and share from a shadow dealer for every peer
+			var peers []int
+			for i := 0; i < n; i++ {
+				if i != me && (a == "jf" || i == dealer) {
+					peers = append(peers, i)
+				}
+			}
+			if len(peers) == 0 { // the instance is the dealer itself: complaints and answers come from the other participants
+				for i := 0; i < n; i++ {
+					if i != me {
+						peers = append(peers, i)
+					}
+				}
+			}
+			scal := append(make([]byte, 31), 7)
+			answers := func(from int) {
+				for j := 0; j < n; j++ {
+					st.HandleBroadcastMsg(from, append([]byte{3, byte(j)}, scal...))
+				}
+			}
+			complaints := func(from int) {
+				for j := 0; j < n; j++ {
+					st.HandleBroadcastMsg(from, []byte{2, byte(j)})
+				}
+			}
+			vector := func(from int) {
+				var emitted []recMsg
+				var sh crypto.DKGState
+				if a == "qual" {
+					sh, _ = crypto.NewFeldmanVSSQual(n, t, from, recProc{from, &emitted}, from)
+				} else {
+					sh, _ = crypto.NewFeldmanVSSQual(n, t, from, recProc{from, &emitted}, from)
+				}
+				sd := make([]byte, 32)
+				sd[0] = byte(from + 1)
+				sh.Start(sd)
+				for _, m := range emitted {
+					if m.to == -1 {
+						st.HandleBroadcastMsg(from, m.data)
+					} else if m.to == me {
+						st.HandlePrivateMsg(from, m.data)
+					}
+				}
+			}
+			for _, from := range peers {
+				switch cc {
+				case "answers-all":
+					vector(from)
+					answers(from)
+				case "complaints-all":
+					vector(from)
+					complaints(from)
+				case "answers-then-complaints":
+					vector(from)
+					answers(from)
+					complaints(from)
+				case "complaints-then-answers":
+					vector(from)
+					complaints(from)
+					answers(from)
+				default:
+					answers(from)
+					vector(from)
+				}
+			}
+			st.NextTimeout()
+			st.NextTimeout()
+			st.End()
+		}
+		return "ok"
 	case "NewDKG", "NewDKGIndices":
 		var n, t, me, dl int
 		if c.Fn == "NewDKG" {
